@@ -137,6 +137,12 @@ func init() {
 	register("C10", "G-PATH", ruleGPath)
 	register("C10", "C08-LIT", ruleNumLiteral) // token rules: a number literal is the characters of its token
 	register("C17", "G-PATH", ruleGPath)
+	register("C03", "B-STEPREF", ruleStepRef) // position() and last() of one predicate are built with the same step
+	register("C11", "N-BUFFER", ruleNBuffer)  // the union buffers copies of its operands' nodes
+	register("C03", "N-BUFFER", ruleNBuffer)  // last() and the per-parent merge buffer copies
+	register("C12", "N-BUFFER", ruleNBuffer)  // reverse() buffers copies
+	register("C17", "G-LEVELS", ruleGLevels)  // a cut after a binary operator: whether a token is an operator depends on the token alone, so the operand that must follow is demanded
+	register("C13", "S-SHARED", ruleSShared)  // not(not(P)) keeps P's truth value for every candidate: the argument's state does not leak from one evaluation to the next
 	register("C03", "A-SMART", ruleASmart)
 	register("C03", "S-RESET", ruleSReset)
 	register("C03", "A-DISPATCH", ruleADispatch)
